@@ -27,6 +27,7 @@ def alias (op : String) (args : List String) : String × List String :=
   | "cbor.det.cap", _ => ("cbor.det", args)      -- what lies behind the slice's length (spare capacity) is not input
   | "sh.parse.twice", _ => ("sh.parse.pl", args)      -- an earlier parse of the same string (result scribbled over) changes nothing
   | "ib.sha512.handle", [f, _] => ("sha512", [f])     -- where the handle's read position was does not matter
+  | "ib.signadd.anykey", _ => ("ib.signadd", args)     -- public keys of any length (the harness counts ed25519's panic on a non-32-byte key as a refusal)
   | "fault.retry", _ => ("fault", args)      -- plus: the same object serialised again afterwards gives the fault-free bytes
   | "fault.dest", _ :: rest => ("fault", rest)      -- which optional methods (Flush, Sync, Close, WriteString, ReadFrom) the destination has besides Write is not input
   | "cw.seq", [k, room, seq] => ("cw.seq", [k, room, seq.replace "R" "r"])   -- R: the source reports io.EOF together with its last bytes
